@@ -161,6 +161,40 @@ def run(ctx, rep):
     rep.check(ok, 'R-C06-8', 'state_sync: parity_chsize (fatal on failure) before state_sync_process', s.file, '', function='state_sync', construct='chsize')
     sizest = [i for i in s.all_insts() if i.op == 'store' and s.expr(i.ops[1]) == '&size']
     rep.check(len(sizest) == 1 and 'blockmax' in s.expr(sizest[0].ops[0]) and 'block_size' in s.expr(sizest[0].ops[0]) and any(c.callee == 'parity_allocated_size' for c in s.calls()), 'R-C06-8', 'size = parity_allocated_size(state) * block_size', s.file, s.expr(sizest[0].ops[0]) if sizest else '?', function='state_sync', construct='size')
+    save_before_clobber_rule(P, rep, 'R-C06-12')
+
+
+def save_before_clobber_rule(P, rep, rid):
+    """on-the-fly recovery in sync: the data just read for a block is saved (copy[]) before anything may overwrite its buffer
+    (zero fill of a block that was empty before, or registration for raid_rec), because the buffer is restored from that copy
+    before the new parity is computed.  A buffer restored from a copy that was never taken puts garbage into the parity of a
+    stripe that is then recorded as synced."""
+    f = P.fn('state_sync_process')
+    rep.rule(rid, 'sync on-the-fly recovery: copy[] <- buffer[] dominates every clobber of the buffer (zero fill, registration for raid_rec); every restore reads the same copy', 3)
+    mcp = [c for c in f.calls() if c.callee and (c.callee == 'memcpy' or c.callee.startswith('llvm.memcpy'))]
+    mst = [c for c in f.calls() if c.callee and (c.callee == 'memset' or c.callee.startswith('llvm.memset'))]
+    saves = [c for c in mcp if f.expr(c.ops[0]) == 'block_copy' and f.expr(c.ops[1]) == 'block_buffer']
+    restores = [c for c in mcp if f.expr(c.ops[0]) == 'block_buffer' and f.expr(c.ops[1]) == 'block_copy']
+    if not restores:
+        raise AnalysisBroken('state_sync_process: restore of the data buffers after raid_rec not found')
+    rec = list(f.calls('raid_rec'))
+    if len(rec) != 1:
+        raise AnalysisBroken('state_sync_process: raid_rec call not found')
+    mapname = f.expr(rec[0].ops[1])
+    h = f.loop_of(saves[0].block) if saves else None
+    clob = []
+    for c in mst:
+        if f.expr(c.ops[0]) == 'block_buffer' and h is not None and c.block in f.loops[h]:
+            clob.append((c, 'zero fill of the buffer'))
+    for i in f.all_insts():
+        if i.op == 'store' and f.expr(i.ops[1]).lstrip('&').startswith(mapname + '['):
+            clob.append((i, 'registration in %s for raid_rec' % mapname))
+    rep.check(len(saves) == 1 and h is not None, rid, 'the buffer of every failed block is saved once per block', saves[0].loc() if saves else f.file, '%d save sites' % len(saves), function='state_sync_process', construct='save site')
+    for c, what in clob:
+        ok = len(saves) == 1 and f.dominates(saves[0], c) and f.loop_of(c.block) == h
+        rep.check(ok, rid, '%s at line %s happens after the save' % (what, c.line), c.loc(), 'dominated by the save in the same loop' if ok else 'the buffer can be overwritten (and later restored from the copy) without having been saved', function='state_sync_process', construct='clobber: %s' % what)
+    if len(clob) < 2:
+        raise AnalysisBroken('state_sync_process: clobber sites not recognised')
 
 
 def autosave_drain_rule(P, rep, L, rid):
